@@ -134,3 +134,39 @@ package core
 //@   requires bp.log != nil && bp.opts != nil
 //@   ensures [C07:accepted-new-group-keeps-genesis-time-period-id-and-seed] err == nil && oldGroup != nil ==> newGroup.GenesisTime == oldGroup.GenesisTime && newGroup.Period == oldGroup.Period && common.canonID(newGroup.ID) == common.canonID(oldGroup.ID) && bytesEq(newGroup.GenesisSeed, oldGroup.GenesisSeed)
 //@   ensures [C07:missing-new-group-is-rejected] oldGroup == nil && newGroup == nil ==> err != nil
+
+// ---- C01: what the node persists at bootstrap and what it answers on the public gRPC interface -------------------------
+// (the in-memory back-end starts from one beacon fetched from peers: it must be verified under the group key first)
+//@ func (*BeaconProcess).storeCurrentFromPeerNetwork(bp, ctx, store) (err)
+//@   props C01
+//@   requires bp.opts != nil && bp.log != nil && bp.opts.clock != nil
+//@   requires bp.group != nil ==> bp.group.Scheme != nil && bp.group.PublicKey != nil && common.validPeriod(bp.group.Period) && common.validGenesis(bp.group.GenesisTime)
+//@   call Put#0: assert [C01:bootstrap-writes-the-genesis-beacon-only-when-peers-report-round-zero] targetBeacon.Round == 0
+//@   call Put#1: assert [C01:bootstrap-stores-only-a-beacon-verified-under-the-group-key] arg2 != nil && arg2.Round >= 1 && crypto.validSig(chain.keyOf(bp.group.PublicKey), crypto.digestOf(bp.group.Scheme, arg2.Round, arg2.PreviousSig), arg2.Signature)
+
+// A successful answer to a request for round r is the beacon read for round r (from the store, or - for the round about
+// to be produced - the one the live callback hands over: channel invariant on the hand-over channel `waitlist`).
+//@ pred reqRound(in) := ite(in == nil, 0, in.Round)
+//@ extern crypto/rand.Read(b) (n, err)
+//@   trusted fills b with random bytes; touches no state of the functions under contract
+//@   modifies nothing
+//@ func (*BeaconProcess).PublicRand(bp, ctx, in) (res, err)
+//@   props C01
+//@   requires [C01] bp.log != nil && bp.opts != nil && (bp.beacon != nil ==> bp.beacon.chain != nil && bp.beacon.chain.CallbackStore != nil) && bp.group != nil
+//@   chan waitlist: invariant [C01:only-the-awaited-round-is-handed-to-the-waiting-request] elem != nil && elem.Round == wanted
+//@   call beaconToProto#0: assert [C01:the-answer-is-built-from-the-beacon-of-the-requested-round] arg0 != nil && (wanted > 0 ==> arg0.Round == wanted)
+//@   ensures [C01:a-successful-answer-to-a-request-for-round-r-is-round-r] err == nil && old(reqRound(in)) > 0 ==> res != nil && res.Round == old(reqRound(in))
+//@   ensures [C01:the-answer-carries-the-fields-of-the-beacon-read] err == nil ==> res != nil && beaconResp != nil && res.Round == beaconResp.Round && res.Signature == beaconResp.Signature && res.PreviousSignature == beaconResp.PreviousSig
+
+// the live callback of a waiting PublicRand request (invoked by the callback store's worker with a stored beacon; a nil
+// beacon is passed only when the same callback id is registered again, which the random id excludes: assumption)
+//@ func (*BeaconProcess).PublicRand$1(b, closed)
+//@   props C01
+//@   requires b != nil
+//@   chan waitlist: invariant [C01:only-the-awaited-round-is-handed-to-the-waiting-request] elem != nil && elem.Round == wanted
+
+//@ func beaconToProto(b) (p)
+//@   props C01 C20
+//@   requires b != nil
+//@   modifies nothing
+//@   ensures [C20:public-answer-is-fieldwise-the-beacon] p != nil && isnew(p) && p.Round == b.Round && p.Signature == b.Signature && p.PreviousSignature == b.PreviousSig
